@@ -435,14 +435,17 @@ where
         let maybe_pdu = if let Some(ref mut unreach_builder) =
             self.withdrawals
         {
-            let mut split_at = 0;
             if !unreach_builder.withdrawals.is_empty() {
+                // Take all withdrawals, unless they exceed the batch size.
+                let mut split_at = unreach_builder.withdrawals.len();
                 let mut compose_len = 0;
                 for (idx, w) in unreach_builder.withdrawals.iter().enumerate()
                 {
                     compose_len += w.compose_len();
                     if compose_len > 4000 {
-                        split_at = idx;
+                        // Always take at least one NLRI, so every call
+                        // makes progress.
+                        split_at = std::cmp::max(idx, 1);
                         break;
                     }
                 }
@@ -463,7 +466,12 @@ where
         // Bit of a clumsy workaround as we can not return Some(self) from
         // within the if let ... self.attributes.get_mut above
         if let Some(pdu) = maybe_pdu {
-            return (pdu, Some(self))
+            // All withdrawals are out: no (empty) MP_UNREACH_NLRI in what
+            // follows.
+            if self.withdrawals.as_ref().is_some_and(|b| b.is_empty()) {
+                self.withdrawals = None;
+            }
+            return (pdu, self.into_remainder())
         }
 
         // TODO: like with conventional withdrawals, handle this case for
@@ -499,8 +507,6 @@ where
         let maybe_pdu = if let Some(ref mut reach_builder) =
             self.announcements
         {
-            let mut split_at = 0;
-
             let other_attrs_len = self.attributes.bytes_len();
             let limit = Self::MAX_PDU 
                     // marker/len/type, wdraw len, total pa len
@@ -510,11 +516,15 @@ where
                     - other_attrs_len;
 
                 if !reach_builder.announcements.is_empty() {
+                    // Take all announcements, unless they exceed the limit.
+                    let mut split_at = reach_builder.announcements.len();
                     let mut compose_len = 0;
                     for (idx, a) in reach_builder.announcements.iter().enumerate() {
                         compose_len += a.compose_len();
                         if compose_len > limit {
-                            split_at = idx;
+                            // Always take at least one NLRI, so every call
+                            // makes progress.
+                            split_at = std::cmp::max(idx, 1);
                             break;
                         }
                     }
@@ -535,7 +545,7 @@ where
             }
         ;
         if let Some(pdu) = maybe_pdu {
-            return (pdu, Some(self))
+            return (pdu, self.into_remainder())
         }
 
 
@@ -550,6 +560,18 @@ where
 
     }
 
+
+    // What is left to do after a PDU has been split off: nothing if there
+    // are no NLRI left.
+    fn into_remainder(self) -> Option<Self> {
+        if self.withdrawals.as_ref().is_some_and(|b| !b.is_empty())
+            || self.announcements.as_ref().is_some_and(|b| !b.is_empty())
+        {
+            Some(self)
+        } else {
+            None
+        }
+    }
 
     /// Turn the builder into a vec of one or more UpdateMessages.
     ///
